@@ -490,6 +490,8 @@ def main(argv=None):
         if status == "fails" or known_hits.get(key):
             pinned_lines.append("KNOWN-FINDING: property=%s %s" % (pid, info["text"]))
 
+    # most readable witnesses first: shrunk ones, then the smallest cases
+    fresh.sort(key=lambda w: (0 if w.get("shrunk") else 1, len(jdumps(w.get("case")))))
     fl = mod.floors(tier) if hasattr(mod, "floors") else {}
     inconclusive = []
     for i, msg in failures:
